@@ -57,7 +57,12 @@ def one(env, res, drv, impl, prog, meta, expect, observables=None, random_monito
     if m['outcome'] == 'outOfFuel':
         res.count('diverges(model outOfFuel; not run on the implementation)')
         return
-    i = impl.run(prog)
+    # every third case runs twice on ONE Pipeline object and is judged on its second run
+    reuse = 2 if res.evaluations % 3 == 2 else 1
+    if reuse > 1:
+        case['reuse'] = reuse
+        res.count('second run of one Pipeline object')
+    i = impl.run(prog, reuse=reuse)
     res.case(case)
     oc = m['outcome'] if isinstance(m['outcome'], str) else 'err:' + m['outcome']['err']['name']
     res.count('outcome:' + oc)
@@ -85,9 +90,10 @@ def replay_case(env, res, case):
     logging.disable(logging.CRITICAL)
     impl = flow_impl.Impl()
     try:
-        prog = case['case']['prog'] if 'case' in case and 'prog' in case['case'] else case['prog']
+        inner = case['case'] if 'case' in case and 'prog' in case['case'] else case
+        prog = inner['prog']
         m = flow_impl.model_run(env.driver, prog)
-        i = impl.run(prog)
+        i = impl.run(prog, reuse=inner.get('reuse', 1))
         res.case({'prog': prog})
         diffs = flow_impl.compare(m, i)
         print('model:', json.dumps(m)[:2000])
